@@ -33,7 +33,7 @@ type params struct {
 var kinds = []string{"cq", "batch", "alias", "handover", "mix", "cq", "cq", "batch", "mix", "mix"}
 
 func cases(tier string, seed int64) []fw.Case {
-	n, steps := 30, 70
+	n, steps := 80, 80
 	if tier == "thorough" {
 		n, steps = 160, 160
 	}
